@@ -272,7 +272,8 @@ pub fn run() {
         alphabet.push(Op::Input(i, 0x5A));
     }
     alphabet.extend([Op::Di1(0xE1), Op::J1(true), Op::J1(false), Op::Uio2(true), Op::Ai1(13)]);
-    let depth = if quick { 3 } else { 4 };
+    let depth = 4;
+    let _ = quick;
     #[derive(Clone)]
     struct Node {
         b: Bus,
